@@ -19,7 +19,7 @@ MODELS = [("c20", "Extract/ExC20.v", "run_C20")]
 
 LNAME = {1: "W", 2: "Flush", 3: "Close", 4: "FGet", 5: "FNowait", 6: "FChoose", 7: "FDeliver",
          8: "AppStart", 9: "AppExit", 10: "AppStop", 11: "LoopClose", 12: "LoopStep", 13: "Render",
-         14: "ExtBegin", 15: "ExtEnd", 16: "Wake", 17: "CprAnswer", 18: "CprTimeout"}
+         14: "ExtBegin", 15: "ExtEnd", 16: "Wake", 17: "CprAnswer", 18: "CprTimeout", 22: "AppDone"}
 LIFECYCLE = (8, 9, 10, 11)
 
 
@@ -60,7 +60,19 @@ class Walk:
         w.closed = self.closed
         return w
 
+    def in_window(self):
+        """between AppDone (exit() called) and AppExit (run_async resumed): everything there
+        happens in one or two loop iterations, only callbacks already on the loop can run"""
+        for l in reversed(self.labels):
+            if l[0] == 22:
+                return True
+            if l[0] != 12:
+                return False
+        return False
+
     def candidates(self):
+        if self.in_window():
+            return [[12], [9]]
         c = []
         for t, prog in enumerate(self.programs):
             if self.pos[t] < len(prog):
@@ -79,7 +91,7 @@ class Walk:
         if self.scenario != "noapp" and (self.ctx & 2):
             c += [[17], [18]]
         if self.scenario == "lifecycle":
-            for k in LIFECYCLE:
+            for k in LIFECYCLE + (22,):
                 if self.budget.get(k, 0) > 0 or k == 10:
                     c.append([k])
         return c
@@ -262,6 +274,44 @@ def shutdown_chain_walks(rng, n):
     return drive_scripts(items)
 
 
+def exit_window_walks(rng, n):
+    """The window between Application.exit() (is_done) and run_async resuming (_is_running still
+    True): m callbacks are on the loop when exit() is called in the same iteration; their
+    run-in-terminal sections run inside the window (bracketed, redrawn, but no cursor position
+    request - the request is keyed on is_done)."""
+    items = []
+    for _ in range(n):
+        cfg = rng.choice([3, 3, 3, 7, 1, 5, 2])
+        k_before = rng.choice([0, 1, 2])
+        m = rng.randint(1, 3)
+        texts = ["%s\n" % chr(ord("a") + i) for i in range(k_before + m + 1)]
+        nthreads = rng.choice([1, 2])
+        progs = [[] for _ in range(nthreads)]
+        script = [[8]]
+        if cfg & 2 and rng.random() < 0.8:
+            script.append([17])
+
+        def bundle(i, step=True):
+            t = i % nthreads
+            progs[t].append(("w", texts[i]))
+            return [[1, t, S(texts[i])], [4], [5], [6], [7]] + ([[12]] if step else [])
+        for i in range(k_before):
+            script += bundle(i)
+            if cfg & 2 and rng.random() < 0.5:
+                script.append([17])
+        for i in range(k_before, k_before + m):
+            script += bundle(i, step=False)
+        script += [[22]] + [[12]] * m + [[9]]
+        if cfg & 2:
+            script += [[18], [18]]
+        script += bundle(k_before + m)
+        script += [[12], [2, 0], [3], [4], [5], [4]]
+        progs[0].append(("f",))
+        w = Walk(progs, "lifecycle", cfg, {8: 1, 9: 1, 22: 1, 11: 1})
+        items.append((w, script))
+    return drive_scripts(items)
+
+
 TEXTS = ["a\n", "b", "", "c\nd", "\n", "e\n\nf", "gh\n", "\x1b[0;1mz\x1b\n", "\x1bc"]
 
 
@@ -291,9 +341,16 @@ def rand_program(rng, nthreads, nops):
 def mark_reports(labels):
     """A step is observed unless asyncio will at once do the next (forced) one."""
     steps = []
+    window = False
     for i, l in enumerate(labels):
         nxt = labels[i + 1] if i + 1 < len(labels) else None
         rep = 0 if (nxt is not None and nxt[0] in (16, 10)) else 1
+        if l[0] == 22:
+            window = True
+        elif l[0] != 12:
+            window = False
+        if window:
+            rep = 0      # the exit()..resume window runs in one go
         if l[0] == 9:
             rep = 0 if (nxt is None or nxt[0] == 10) else 1
         steps.append([l, rep])
@@ -357,10 +414,11 @@ def gen_schedules(chk):
     starts = []
     for _ in range(n):
         w = Walk(rand_program(rng, rng.randint(1, 3), 4), "lifecycle", rng.choice([1, 1, 3, 3, 0, 2, 9, 11]),
-                 {8: 2, 9: 2, 11: 1, 13: 1, 14: 1, "early_close": rng.random() < 0.1})
+                 {8: 2, 9: 2, 11: 1, 13: 1, 14: 1, 22: 1, "early_close": rng.random() < 0.1})
         starts.append(w)
-    add(random_walks(rng, starts, 70, {**wt_flush, 8: 2.0, 9: 0.6, 11: 0.4}), "random-lifecycle")
+    add(random_walks(rng, starts, 70, {**wt_flush, 8: 2.0, 9: 0.6, 11: 0.4, 22: 0.5}), "random-lifecycle")
     add(shutdown_chain_walks(rng, 250 if thorough else 40), "shutdown-chain")
+    add(exit_window_walks(rng, 200 if thorough else 40), "exit-window")
     return scheds, dist
 
 
@@ -379,9 +437,22 @@ def replay_schedule(ctx, labels, complete=True):
     obs = []
     status = None
     try:
-        for (l, rep) in steps:
+        skip = 0
+        for i, (l, rep) in enumerate(steps):
+            if skip:
+                skip -= 1      # LoopSteps of an exit()..resume window, already done by do_window
+                if rep:
+                    obs.append(rig.obs())
+                continue
             try:
-                rig.do(l)
+                if l[0] == 22:
+                    n = 0
+                    while i + 1 + n < len(steps) and steps[i + 1 + n][0][0] == 12:
+                        n += 1
+                    rig.do_window(n)
+                    skip = n
+                else:
+                    rig.do(l)
             except c20_rig.RigTimeout as e:
                 status = "timeout at %s: %s" % (show_label(l), e)
                 break
@@ -1019,9 +1090,9 @@ def main(tier):
         "positive in-order/bracket theorems across application start/exit/stop/loop-close/restart need loop validity (Model: valid - no AppStart between a `_get_app_loop() -> None` and its use, no AppStop between a `-> loop` and its use or with a callback pending; refuted without: C20_bracket_start_refuted, C20_stop_race_refuted, whose witnesses are not valid: C20_races_violate_validity); the session flag c is read by LoopStep through get_app_or_none(cb_session ...): that the callback sees the proxy's own session follows from context=self._context.copy() (cb_session true), the pre-fix step (step_noctx) is refuted for a proxy of another session",
         "what reaches the terminal = text written to the Output object before a flush of it (rig: every flush of the real Vt100_Output is logged; model: EFlush after every write, Renderer.erase/render end with a flush); Vt100_Output.write's ESC->'?' replacement and raw=True are a function of the observation (vt_write), compared per write event with what the real Output appended to its buffer",
         "loop-side progress (C20_loop_side_progress) counts a foreign in_terminal section ending and the CPR wait timing out as steps the environment eventually takes (fairness); exceptions in callbacks are outside",
-        "CPR requests are keyed on _is_running in the model, on is_done/input_queue in the code; the window between exit() and _is_running=False is not replayed",
+        "CPR requests are keyed on `not is_done` (model field isdone; the key processor's input queue is assumed empty at the modelled call sites: no keys are typed); the window between exit() and run_async resuming (AppDone .. AppExit) is modelled and replayed as one loop iteration [callbacks.., exit()] (rig.do_window), observed only after the resumption",
         "the 'lost' list compared with the model is the rig's bookkeeping of batches it held when a loop was closed; C20_flush_thread_never_dies is a model sanity lemma (step has no crash transition)",
-        "Render is replayed as Application._redraw() in the loop, not through invalidate()'s postponing scheduler",
+        "Render is replayed as Application._redraw() in the loop, not through invalidate()'s postponing scheduler; the one invalidate() the schedules cause (the key binding handling a cursor position report) is made load-independent by constructing the rig's Application with max_render_postpone_time=1e6: its redraw runs when the loop is idle, i.e. after the section woken by the same report has resumed (the model's order); with the default 0.01 s a loaded machine can render first - also property-conforming, not modelled",
         "text written after close() is outside the property (never delivered; the model keeps it in the queue)"]
     return chk.finish()
 
